@@ -1,2 +1,236 @@
-(* C03 - property theorems (under construction) *)
-From PV Require Import C03.Model.
+(* C03 - a response reaches exactly the request that it answers.
+   Property theorems only; every one is about ALL histories of the model (arbitrary
+   interleavings of requests, device messages, wake-ups, timeouts and cancellations). *)
+From Coq Require Import List Bool Arith NArith Lia.
+From PV Require Import C03.Model C03.Spec C03.ProofsBase C03.ProofsMrp C03.ProofsComp C03.ProofsHttp C03.ProofsRtsp C03.ProofsPerm.
+Import ListNotations.
+
+(* ======================================================================= MRP *)
+
+(* deliver_matches: whatever send_and_receive returns to request w is a device message
+   that carries w's identifier and arrived after w's request - no side condition. *)
+Theorem C03_mrp_deliver_matches : forall pre e w p,
+  In (MDeliver w (Some p)) (snd (mstep (final mstep m_init pre) e)) ->
+  e = MWake w /\
+  exists k m h1 h2 h3, pre = h1 ++ MReq w k :: h2 ++ MMsg m :: h3 /\ mkey_of m = k /\ m_tag m = p.
+Proof. exact deliver_matches. Qed.
+Print Assumptions C03_mrp_deliver_matches.
+
+(* deliver_once: a message is handed out - to a caller or to the listeners - at most as
+   often as it arrived; with distinct messages nothing is handed out twice. *)
+Theorem C03_mrp_deliver_once : forall h,
+  (forall p, count_occ N.eq_dec (m_out_tags (outs mstep m_init h)) p <= count_occ N.eq_dec (m_msg_tags h) p) /\
+  (NoDup (m_msg_tags h) -> NoDup (m_out_tags (outs mstep m_init h))).
+Proof. intro h. split; [intro p; exact (deliver_once h p)|exact (deliver_once_nodup h)]. Qed.
+Print Assumptions C03_mrp_deliver_once.
+
+(* unsolicited_once: with fresh identifiers, a message goes to the listeners exactly once
+   iff no request is registered under its identifier, and is kept for that request otherwise. *)
+Theorem C03_mrp_unsolicited_once : forall pre m, m_fresh pre ->
+  (m_live pre (outs mstep m_init pre) (mkey_of m) ->
+     snd (mstep (final mstep m_init pre) (MMsg m)) = []) /\
+  (~ m_live pre (outs mstep m_init pre) (mkey_of m) ->
+     snd (mstep (final mstep m_init pre) (MMsg m)) = [MListen (m_type m) (m_tag m)]).
+Proof. exact unsolicited_iff. Qed.
+Print Assumptions C03_mrp_unsolicited_once.
+
+(* ... in particular (no freshness needed) a message whose identifier was never requested *)
+Theorem C03_mrp_unsolicited_never_requested : forall pre m,
+  (forall w, ~ In (MReq w (mkey_of m)) pre) ->
+  snd (mstep (final mstep m_init pre) (MMsg m)) = [MListen (m_type m) (m_tag m)].
+Proof. exact never_requested_listen. Qed.
+Print Assumptions C03_mrp_unsolicited_never_requested.
+
+(* timeout_isolated: after request w timed out, a late answer to it reaches no caller at
+   all - it is dispatched to the listeners like any unsolicited message. *)
+Theorem C03_mrp_timeout_isolated : forall pre w k m, m_fresh pre ->
+  In (MReq w k) pre -> In (MTimeoutErr w) (outs mstep m_init pre) -> mkey_of m = k ->
+  snd (mstep (final mstep m_init pre) (MMsg m)) = [MListen (m_type m) (m_tag m)].
+Proof. exact timeout_isolated. Qed.
+Print Assumptions C03_mrp_timeout_isolated.
+
+(* every request ends at most once (so nothing is handed to it after it timed out) *)
+Theorem C03_mrp_outcome_once : forall h w, m_fresh h ->
+  length (filter (m_mentionsb w) (outs mstep m_init h)) <= 1.
+Proof. intros h w F. exact (outcome_once h w F). Qed.
+Print Assumptions C03_mrp_outcome_once.
+
+(* a pending request whose timer fires gets the timeout error *)
+Theorem C03_mrp_timeout_reported : forall pre w k, m_fresh pre ->
+  In (MReq w k) pre -> m_pending w (outs mstep m_init pre) ->
+  snd (mstep (final mstep m_init pre) (MTimeout w)) = [MTimeoutErr w].
+Proof. exact timeout_reported. Qed.
+Print Assumptions C03_mrp_timeout_reported.
+
+(* and the answer that arrives while the request is pending is what it returns *)
+Theorem C03_mrp_answer_delivered : forall pre w k m, m_fresh pre ->
+  In (MReq w k) pre -> m_pending w (outs mstep m_init pre) -> mkey_of m = k ->
+  snd (mstep (final mstep m_init pre) (MMsg m)) = [] /\
+  snd (mstep (fst (mstep (final mstep m_init pre) (MMsg m))) (MWake w)) = [MDeliver w (Some (m_tag m))].
+Proof. exact answer_delivered. Qed.
+Print Assumptions C03_mrp_answer_delivered.
+
+(* ================================================================= Companion *)
+
+(* deliver_matches: what exchange_opack/exchange_auth returns (or the "_em" error it raises)
+   was carried by a frame bearing the identifier assigned to that request, arriving after it. *)
+Theorem C03_comp_deliver_matches : forall x0 pre e w p (err : bool),
+  In (if err then CProtoErr w p else CDeliver w p) (snd (cstep (final cstep (c_init x0) pre) e)) ->
+  e = CWake w /\
+  exists key h1 r h2 f h3,
+    pre = h1 ++ r :: h2 ++ CFrame f :: h3 /\ c_req_of r = Some w /\
+    c_key_at (final cstep (c_init x0) h1) r = Some key /\ c_frame_answer f = Some (key, (p, err)).
+Proof. exact comp_deliver_matches. Qed.
+Print Assumptions C03_comp_deliver_matches.
+
+Theorem C03_comp_deliver_once : forall x0 h p,
+  count_occ N.eq_dec (c_out_tags (outs cstep (c_init x0) h)) p <= count_occ N.eq_dec (c_frame_tags h) p.
+Proof. exact comp_deliver_once. Qed.
+Print Assumptions C03_comp_deliver_once.
+
+(* unsolicited_once: an event reaches the listener exactly once in every state and touches
+   no request; no frame of any kind produces more than that one listener call. *)
+Theorem C03_comp_unsolicited_once : forall s f,
+  (forall tag, c_frame_event f = Some tag -> cstep s (CFrame f) = (s, [CListen tag])) /\
+  (snd (cstep s (CFrame f)) = [] \/
+   exists tag, c_frame_event f = Some tag /\ snd (cstep s (CFrame f)) = [CListen tag]).
+Proof. intros s f. split; [intro tag; exact (event_once s f tag)|exact (frame_outputs s f)]. Qed.
+Print Assumptions C03_comp_unsolicited_once.
+
+(* timeout_isolated: transaction ids are never reused - together with deliver_matches, the
+   late answer to an abandoned request can never be taken for the answer to a later one. *)
+Theorem C03_comp_xid_never_reused : forall x0 h1 r1 h2 r2 xa xb,
+  c_key_at (final cstep (c_init x0) h1) r1 = Some (CX xa) ->
+  c_key_at (final cstep (c_init x0) (h1 ++ r1 :: h2)) r2 = Some (CX xb) ->
+  (xa < xb)%N.
+Proof. exact xid_unique. Qed.
+Print Assumptions C03_comp_xid_never_reused.
+
+Theorem C03_comp_outcome_once : forall x0 h w, NoDup (c_req_waiters h) ->
+  length (filter (c_mentionsb w) (outs cstep (c_init x0) h)) <= 1.
+Proof. intros x0 h w F. exact (comp_outcome_once x0 h w F). Qed.
+Print Assumptions C03_comp_outcome_once.
+
+Theorem C03_comp_timeout_reported : forall x0 pre w, NoDup (c_req_waiters pre) ->
+  In w (c_req_waiters pre) -> (forall x, In x (outs cstep (c_init x0) pre) -> ~ c_mentions w x) ->
+  snd (cstep (final cstep (c_init x0) pre) (CTimeout w)) = [CTimeoutErr w].
+Proof. exact comp_timeout_reported. Qed.
+Print Assumptions C03_comp_timeout_reported.
+
+(* after a request has ended (e.g. by timeout) no later event hands it anything *)
+Theorem C03_comp_ended_silent : forall x0 pre w x e, NoDup (c_req_waiters (pre ++ [e])) ->
+  In x (outs cstep (c_init x0) pre) -> c_mentions w x ->
+  forall y, In y (snd (cstep (final cstep (c_init x0) pre) e)) -> ~ c_mentions w y.
+Proof. exact comp_ended_silent. Qed.
+Print Assumptions C03_comp_ended_silent.
+
+(* ====================================================================== HTTP *)
+
+(* http_fifo: no timeout/cancellation, a device that never sends more responses than it got
+   requests: whatever a request is handed (value or status error) is the k-th response for
+   the k-th request. *)
+Theorem C03_http_fifo : forall h,
+  NoDup (h_reqs h) -> (forall e, In e h -> h_is_abort e = false) -> h_device_ok h ->
+  forall x w r, In x (outs hstep h_init h) -> h_got x = Some (w, r) ->
+  exists n, nth_error (h_reqs h) n = Some w /\ nth_error (h_resps h) n = Some r.
+Proof. intros h N A D. apply http_fifo. repeat split; assumption. Qed.
+Print Assumptions C03_http_fifo.
+
+(* http_late_refuted: with a timeout the conclusion fails - Req a; Timeout a; Req b; Resp(for a)
+   hands a's answer to b.  (known finding C03:http:late-response-to-next-request) *)
+Theorem C03_http_late_refuted : exists h,
+  NoDup (h_reqs h) /\ h_device_ok h /\
+  exists w r, In (HDeliver w r) (outs hstep h_init h) /\
+    nth_error (h_resps h) 0 = Some r /\ nth_error (h_reqs h) 0 <> Some w /\ In (HTimeoutErr 0) (outs hstep h_init h).
+Proof.
+  exists [HReq 0 false; HTimeout 0; HReq 1 false; HResp (MkResp None 200 10); HWake 1].
+  split; [repeat constructor; simpl; intuition discriminate|].
+  split; [apply dev_okb_sound; reflexivity|].
+  exists 1, (MkResp None 200 10). vm_compute. intuition discriminate.
+Qed.
+Print Assumptions C03_http_late_refuted.
+
+(* ====================================================================== RTSP *)
+
+(* what exchange() RETURNS always carries the CSeq of that very request (the number of
+   requests made before it) and was sent by the device - for every history. *)
+Theorem C03_rtsp_return_matches : forall pre e w r,
+  In (HDeliver w r) (snd (rstep (final rstep r_init pre) e)) ->
+  e = RWake w /\
+  exists h1 a h2, pre = h1 ++ RReq w a :: h2 /\ h_cseq r = Some (length (r_reqs_of h1)) /\ In (RResp r) pre.
+Proof. exact rtsp_return_matches. Qed.
+Print Assumptions C03_rtsp_return_matches.
+
+(* rtsp_permutation: requests from distinct callers; the device answers each request exactly once
+   (a response carries the CSeq of a request already made; no CSeq twice) with 2xx, in ANY order
+   and with any interleaving of requests, arrivals and wake-ups; no timer fires.  Once every
+   request has been answered and nothing is runnable any more, every caller has returned the
+   response that carries its own CSeq. *)
+Theorem C03_rtsp_permutation : forall h,
+  NoDup (r_reqs_of h) -> (forall e, In e h -> r_is_abort e = false) ->
+  (forall r, In r (r_resps h) -> ok2xx r) -> NoDup (map h_cseq (r_resps h)) ->
+  (forall pre post, h = pre ++ post ->
+     forall r, In r (r_resps pre) -> exists c, h_cseq r = Some c /\ c < length (r_reqs_of pre)) ->
+  length (r_resps h) = length (r_reqs_of h) -> r_quiescent (final rstep r_init h) ->
+  forall c w, nth_error (r_reqs_of h) c = Some w ->
+  exists r, In r (r_resps h) /\ h_cseq r = Some c /\ In (HDeliver w r) (outs rstep r_init h).
+Proof.
+  intros h N Ab Ok Nc An L Q. apply rtsp_permutation_all; auto. repeat split; assumption.
+Qed.
+Print Assumptions C03_rtsp_permutation.
+
+(* rtsp_error_refuted: the same is false for the errors exchange() RAISES: two requests, the
+   device answers the second (CSeq 1) with 500 first - the first request raises that HttpError and
+   the second one times out.  (known finding C03:rtsp:error-status-before-cseq-match) *)
+Theorem C03_rtsp_error_refuted : exists h r,
+  r_reqs_of h = [0; 1] /\ map h_cseq (r_resps h) = [Some 1; Some 0] /\
+  h_cseq r = Some 1 /\ In (HHttpErr 0 r) (outs rstep r_init h) /\ In (HTimeoutErr 1) (outs rstep r_init h).
+Proof.
+  exists [RReq 0 false; RReq 1 false; RResp (MkResp (Some 1) 500 11); RWake 0;
+          RResp (MkResp (Some 0) 200 10); RWake 1; RTimeout 1], (MkResp (Some 1) 500 11).
+  vm_compute. intuition.
+Qed.
+Print Assumptions C03_rtsp_error_refuted.
+
+(* ========================================================= non-vacuity examples *)
+Example C03_ex_mrp_fresh :
+  let h := [MReq 0 (KId 7); MReq 1 (KType 34); MMsg (MkMsg None 34 5); MMsg (MkMsg (Some 7%N) 2 6);
+            MWake 1; MTimeout 0; MMsg (MkMsg (Some 7%N) 2 8)] in
+  m_fresh h /\ outs mstep m_init h = [MDeliver 1 (Some 5%N); MTimeoutErr 0; MListen 2 8].
+Proof. split; [split; repeat constructor; simpl; intuition discriminate|reflexivity]. Qed.
+
+Example C03_ex_http_fifo :
+  let h := [HReq 0 false; HReq 1 true; HResp (MkResp None 200 1); HReq 2 false; HResp (MkResp None 404 2);
+            HWake 1; HWake 0; HResp (MkResp None 500 3); HWake 2] in
+  NoDup (h_reqs h) /\ (forall e, In e h -> h_is_abort e = false) /\ h_device_ok h /\
+  outs hstep h_init h = [HDeliver 1 (MkResp None 404 2); HDeliver 0 (MkResp None 200 1); HHttpErr 2 (MkResp None 500 3)].
+Proof.
+  repeat split.
+  - repeat constructor; simpl; intuition discriminate.
+  - intros e H. simpl in H. repeat (destruct H as [<-|H]; [reflexivity|]). destruct H.
+  - apply dev_okb_sound. reflexivity.
+Qed.
+
+Example C03_ex_comp :
+  let h := [CReq 0; CReq 1; CFrame (MkFrame 8 (BDict (Some 3%N) (Some 101%N) false 5 false));
+            CFrame (MkFrame 8 (BDict (Some 1%N) None true 9 false)); CWake 1; CTimeout 0;
+            CFrame (MkFrame 8 (BDict (Some 3%N) (Some 100%N) false 6 false)); CReq 2; CWake 2] in
+  NoDup (c_req_waiters h) /\ outs cstep (c_init 100) h = [CListen 9; CDeliver 1 5; CTimeoutErr 0].
+Proof. split; [repeat constructor; simpl; intuition discriminate|reflexivity]. Qed.
+
+Example C03_ex_rtsp_permutation :
+  let h := [RReq 0 false; RReq 1 false; RResp (MkResp (Some 1) 200 11); RReq 2 true; RWake 0;
+            RResp (MkResp (Some 2) 204 12); RResp (MkResp (Some 0) 200 10); RWake 2; RWake 1; RWake 0; RWake 2] in
+  r_perm_ok h /\ length (r_resps h) = length (r_reqs_of h) /\ r_quiescent (final rstep r_init h) /\
+  outs rstep r_init h = [HDeliver 1 (MkResp (Some 1) 200 11); HDeliver 0 (MkResp (Some 0) 200 10);
+                         HDeliver 2 (MkResp (Some 2) 204 12)].
+Proof.
+  repeat split.
+  - repeat constructor; simpl; intuition discriminate.
+  - intros e H. simpl in H. repeat (destruct H as [<-|H]; [reflexivity|]). destruct H.
+  - intros r H. simpl in H. repeat (destruct H as [<-|H]; [reflexivity|]). destruct H.
+  - repeat constructor; simpl; intuition discriminate.
+  - apply ans_okb_sound. reflexivity.
+  - vm_compute. intros; discriminate.
+  - vm_compute. intros; discriminate.
+Qed.
